@@ -5,7 +5,13 @@ from dataclasses import dataclass
 from functools import partial
 from typing import Protocol, get_args, runtime_checkable
 
-from .mro import Order, TypeRelationship, subclasscheck, typeorder
+from .mro import (
+    Order,
+    TypeRelationship,
+    instancecheck,
+    subclasscheck,
+    typeorder,
+)
 from .typemap import TypeMap
 from .utils import UnionType, UnionTypes, UsageError, clsstring
 
@@ -412,10 +418,8 @@ class Union:
                     # assumes that the bounds of its members hold
                     return CodeGen("isinstance({arg}, {member})", member=t)
                 return cg
-            return CodeGen(
-                "(isinstance({arg}, {member_bound}) and " + cg.template + ")",
-                {**cg.substitutions, "member_bound": bound},
-            )
+            bcg = generate_checking_code(bound)
+            return combine("({} and {})", [bcg, cg])
 
         template = "(" + " or ".join("{}" for t in self.types) + ")"
         return combine(template, [guarded(t) for t in self.types])
@@ -437,7 +441,7 @@ class Union:
         return self.__is_supertype__(sub)
 
     def __instancecheck__(self, obj):
-        return any(isinstance(obj, t) for t in self.types)
+        return any(instancecheck(obj, t) for t in self.types)
 
     def __eq__(self, other):
         return set(self.__args__) == set(other.__args__)
@@ -483,7 +487,7 @@ class Intersection:
         return self.__is_supertype__(sub)
 
     def __instancecheck__(self, obj):
-        return all(isinstance(obj, t) for t in self.types)
+        return all(instancecheck(obj, t) for t in self.types)
 
     def __eq__(self, other):
         return set(self.__args__) == set(other.__args__)
